@@ -93,7 +93,15 @@ def main(argv):
         ob["known_tags"] = known_tags
         ob["_idx"] = i
     # big ones first
-    order = sorted(range(len(obs)), key=lambda i: -obs[i].get("weight", obs[i].get("timeout", 60)))
+    def _weight(ob):
+        if "weight" in ob:
+            return ob["weight"]
+        w = 1.0
+        for _, lo, hi in ob["params"]:
+            w *= hi - lo + 1
+        return w
+
+    order = sorted(range(len(obs)), key=lambda i: -_weight(obs[i]))
     budget = float(getattr(mod, "HARD_BUDGET_S", {}).get(tier, 1500 if tier == "thorough" else 420))
     results = {}
     ctx = mp.get_context("fork")
@@ -122,6 +130,7 @@ def main(argv):
                 "params": ob["params"], "harness_error": None,
             }
 
+    t_explore = time.time() - t0
     # ---------------------------------------------------------------- aggregate
     lines = []
     exit_code = 0
@@ -298,6 +307,7 @@ def main(argv):
         print(ln)
     for ln in lines:
         print(ln)
+    print("phases: explore=%.1fs replay+report=%.1fs" % (t_explore, time.time() - t0 - t_explore))
     print("%s %s: obligations=%d discharged=%d refuted=%d inconclusive=%d paths=%d smt_queries=%d solver_s=%.1f wall_s=%.1f validated_witnesses=%d exit=%d"
           % (prop, tier, n_ob, discharged, verdicts.get("REFUTED", 0), len(inconclusive), total_paths, total_q,
              ev["coverage"]["solver_time_s"], ev["wall_s"], validated, exit_code))
